@@ -29,6 +29,9 @@ BOUNDS = {'quick': {'region_carts': 128, 'byte_pairs': 'special x all'},
           'thorough': {'region_carts': 256 + 64, 'byte_pairs': 'all 65536'}}
 
 
+from lib import reflex
+
+
 def p8fmt():
     from pico8.game.formatter.p8 import P8Formatter
     return P8Formatter
@@ -274,6 +277,22 @@ def lua_sources(tier):
     out.append(('bytes-in-longstring', b''.join(st)))
     out.append(('bytes-in-ident', b''.join(b'a' + bytes([b]) + b'=' + bytes([b]) + b'\n' for b in range(0x80, 0x100))))
     out.append(('nul-in-comment', b'--a\x00b\n'))
+    # quoted strings over all ordered pairs of the escape / byte atoms of C06 (what the writer re-spells must read back
+    # to the same text): one cart per quote kind
+    from props import c06
+    for q in (b'"', b"'"):
+        lines = []
+        for a, _ in c06.ATOMS:
+            for b, _ in c06.ATOMS:
+                other = b"'" if q == b'"' else b'"'
+                line = b's=' + q + (a + b).replace(b'OTHERQ', other) + q + b'\n'
+                try:
+                    sig = reflex.significant(reflex.lex(line))
+                except reflex.Reject:
+                    continue
+                if [t.kind for t in sig] == ['name', 'symbol', 'string']:
+                    lines.append(line)
+        out.append(('string-escape-pairs-%s' % ('dq' if q == b'"' else 'sq'), b''.join(lines)))
     # every possible final byte of a source that does not end in "\n" (in a comment, and bare blanks after code)
     for b in range(1, 256):
         if b == 10:
